@@ -169,6 +169,30 @@ func c04Values(r *eng.Run) {
 		}
 		count("1:digits<=k x exponents", n)
 	})
+	if r.Thorough() {
+		// 5-digit mantissas x exponents round the tier and range borders
+		var exps []int
+		for e := -345; e <= -295; e++ {
+			exps = append(exps, e)
+		}
+		for e := -45; e <= 45; e++ {
+			exps = append(exps, e)
+		}
+		for e := 270; e <= 312; e++ {
+			exps = append(exps, e)
+		}
+		eng.Parallel(90000, func(i int) {
+			ms := strconv.Itoa(10000 + i)
+			n := 0
+			for _, e := range exps {
+				es := strconv.Itoa(e)
+				one(ms+"e"+es, "digits5")
+				one("-"+ms[:1]+"."+ms[1:]+"E"+es, "digits5")
+				n += 2
+			}
+			count("1d:5-digit mantissas x border exponents", n)
+		})
+	}
 	// family 1c: every (mantissa digit count 1..17, exponent -45..45) cell of the exact-arithmetic
 	// tier and its borders, several mantissa patterns per digit count, both signs
 	eng.Parallel(17, func(i int) {
